@@ -311,7 +311,8 @@ def race_scenario(comp, rng, sid):
         a_ops = [f'getver {o} 0', f'try {m} {v} {o}', f'bool {v}', f'dtor {v}']
     else:
         c = g.var(0, 'Comp')
-        a_ops = [f'prep {c} 0', f'bool {c}', f'cverify {c}', 'payrd 0', f'cverify {c}', f'dtor {c}']
+        # (no payload read here: under a non-owning composite guard a torn read is legitimate - it is what cverify rejects)
+        a_ops = [f'prep {c} 0', f'bool {c}', f'cverify {c}', f'gver {c}', f'cverify {c}', f'dtor {c}']
     sb, xb = g.var(1, 'S'), g.var(1, 'X')
     for _ in range(rng.randrange(2, 6)):
         if comp == 'mcs' or rng.random() < 0.7:
